@@ -10,7 +10,7 @@ from vfw.core import Violation, must_return
 from vfw.model import transform as TM
 
 PROPERTY = "C07"
-SIZES = {"quick": 3200, "thorough": 120000}
+SIZES = {"quick": 8000, "thorough": 120000}
 RULE = (
     "Hypothesis draws column length n 1-6, 0-2 leading dims (1-3 columns each), a target_data profile on the n+1 bounds per "
     "column (or one shared profile) from a lattice of dyadic rationals mixed with arbitrary floats (so repeats, non-monotonic "
